@@ -344,6 +344,20 @@ for pos, body, pasted in (
         P('inc_' + sfx, [], [], macro=mac, pre=SRC2 % nm, body=['pub struct P;'] + [b.replace('SRCNAME', nm) for b in body], tags=['twin'],
           twin=('inc_pasted_' + sfx, 'C'))
         P('inc_pasted_' + sfx, [], [], macro=mac, body=['pub struct P;'] + pasted, tags=['twin'])
+# conditions attached to a clause (no comma) inside a macro body: their variables are macro-local too
+MACA = ['macro big($x: expr) { p($x, t) if *t > 6 }',
+        'macro pick($x: expr, $r: ident) { p($x, t) if let Some($r) = Some(*t + 1) if *t > 0 }',
+        'macro both2($x: expr) { p($x, t) let u = *t + 1 if u > 3, edge(u, t) }']
+both('t_maca_sugar', MC, [], body=['pub struct P;'] + [d + ';' for d in MC] + MACA + [
+     'r(a0, t) <-- edge(a0, t), big!(a0);',
+     'r(x, z) <-- k(x), big!(x), big!(x + 1), edge(x, z);',
+     'r(t, w) <-- k(t), pick!(t, w);',
+     'b(x, t) <-- edge(x, t), both2!(x), both2!(t);'], tags=['twin'], twin=('t_maca_core', 'L'))
+both('t_maca_core', MC,
+     ['r(a0, t) <-- edge(a0, t), p(a0, t1) if *t1 > 6',
+      'r(x, z) <-- k(x), p(x, t1) if *t1 > 6, p(x + 1, t2) if *t2 > 6, edge(x, z)',
+      'r(t, w) <-- k(t), p(t, t1) if let Some(w) = Some(*t1 + 1) if *t1 > 0',
+      'b(x, t) <-- edge(x, t), p(x, t1) let u1 = *t1 + 1 if u1 > 3, edge(u1, t1), p(t, t2) let u2 = *t2 + 1 if u2 > 3, edge(u2, t2)'], tags=['twin'])
 # a disjunction inside a macro body whose locals are private to one disjunct each
 MACD = ['macro alt($a: expr, $b: expr) { (edge($a, t1), p(t1, $b) | p($a, t2), edge(t2, $b)) }',
         'macro alt2($a: expr, $b: expr) { k($a), (alt!($a, m) | edge($a, m)), edge(m, $b) }']
